@@ -107,7 +107,7 @@ pub extern "C" fn main(argc: c_int, argv: *const *const c_char, envp: *const *co
             return 0;
         }
     }
-    if base == b"sh" {
+    if base == b"sh" || base == b"env" {
         // stand-in for the platform shell (C16): report what the "shell" was given
         let v = unsafe { libc::getenv(b"VCHILD_REPORT\0".as_ptr() as *const c_char) };
         if !v.is_null() {
@@ -236,6 +236,43 @@ fn fd_table(out: &mut Vec<u8>, tag: &str) {
             push_kv(out, tag, line.as_bytes());
         }
     }
+}
+
+/// Descriptors above 2 that refer to pipes, as "<fd> <target> <access mode>" (taken before this program opens anything).
+fn extra_pipe_fds() -> Vec<String> {
+    let mut v = vec![];
+    unsafe {
+        let dfd = libc::open(b"/proc/self/fd\0".as_ptr() as *const c_char, libc::O_RDONLY | libc::O_DIRECTORY | libc::O_CLOEXEC);
+        if dfd < 0 {
+            return v;
+        }
+        let dir = libc::fdopendir(dfd);
+        if dir.is_null() {
+            return v;
+        }
+        loop {
+            let ent = libc::readdir(dir);
+            if ent.is_null() {
+                break;
+            }
+            let name = CStr::from_ptr((*ent).d_name.as_ptr()).to_bytes();
+            if let Some(n) = std::str::from_utf8(name).ok().and_then(|s| s.parse::<i32>().ok()) {
+                if n > 2 && n != dfd {
+                    let mut link = vec![0u8; 256];
+                    let p = format!("/proc/self/fd/{}\0", n);
+                    let k = libc::readlink(p.as_ptr() as *const c_char, link.as_mut_ptr() as *mut c_char, link.len());
+                    if k > 0 {
+                        let t = String::from_utf8_lossy(&link[..k as usize]).into_owned();
+                        if t.starts_with("pipe:") {
+                            v.push(format!("{} {} {}", n, t, libc::fcntl(n, libc::F_GETFL) & libc::O_ACCMODE));
+                        }
+                    }
+                }
+            }
+        }
+        libc::closedir(dir);
+    }
+    v
 }
 
 fn mode_report(argc: c_int, argv: *const *const c_char, envp: *const *const c_char, path: &[u8], flags: &[u8], exe: &[u8]) -> c_int {
@@ -570,7 +607,11 @@ fn mode_stage(argc: c_int, argv: *const *const c_char) -> c_int {
     let nerr = num(arg_str(argv, 5));
     let linger = num(arg_str(argv, 6));
     let code = num(arg_str(argv, 7)) as c_int;
+    let extra = extra_pipe_fds();
     let rep = Rep::open(arg_bytes(argv, 8));
+    for x in &extra {
+        rep.line(&format!("xfd {}", x));
+    }
     let emit = if argc > 9 { num(arg_str(argv, 9)) } else { 0 };
     // optional: stop reading after <take> bytes (a consumer that exits before its input ends, like `head -c N`)
     let take = if argc > 10 { num(arg_str(argv, 10)) } else { 0 };
